@@ -106,6 +106,10 @@ type FuncEffect struct {
 	// the same, per result position (a pointer result does not alias what only the
 	// error result refers to); nil for table-summarised functions
 	RetIdx map[int]rootSet
+	// the objects the results ARE (top level), as opposed to what they contain: a helper
+	// that returns a fresh map filled from its parameter has RetTop = {fresh}, RetIdx =
+	// {fresh, param}; writing an entry of that map does not write the parameter
+	RetTop map[int]rootSet
 	Spawns *Witness // go statement reachable
 }
 
@@ -543,29 +547,52 @@ func (st *funcState) callResultAt(c *ssa.Call, idx int) rootSet {
 		if idx >= 0 && s.RetIdx != nil {
 			retFrom = s.RetIdx[idx]
 		}
+		isTop := func(r Root) bool {
+			if s.RetTop == nil {
+				return true // table-summarised callee: no distinction
+			}
+			if idx >= 0 {
+				return s.RetTop[idx][r]
+			}
+			for _, t := range s.RetTop {
+				if t[r] {
+					return true
+				}
+			}
+			return false
+		}
+		inside := rootSet{} // what the (fresh) result object merely contains
 		for r := range retFrom {
+			dst := out
+			if !isTop(r) {
+				dst = inside
+			}
 			switch r.Kind {
 			case rParam:
 				if r.Idx < len(args) {
 					// the result may contain/alias memory reachable from arg
 					if r.Deep {
-						out.addAll(markDeep(st.deep(args[r.Idx])))
+						dst.addAll(markDeep(st.deep(args[r.Idx])))
 					} else {
-						out.addAll(st.deep(args[r.Idx]))
+						dst.addAll(st.deep(args[r.Idx]))
 					}
 				}
 			case rGlobal, rUnknown:
-				out[r] = true
+				dst[r] = true
 			case rFresh:
 				out[Root{Kind: rFresh, Site: c}] = true
 			case rFreeVar:
 				// result aliases a captured variable of the callee closure
 				if mc, ok := com.Value.(*ssa.MakeClosure); ok && r.Idx < len(mc.Bindings) {
-					out.addAll(st.deep(mc.Bindings[r.Idx]))
+					dst.addAll(st.deep(mc.Bindings[r.Idx]))
 				} else {
-					out[Root{Kind: rUnknown}] = true
+					dst[Root{Kind: rUnknown}] = true
 				}
 			}
+		}
+		if len(inside) > 0 {
+			out[Root{Kind: rFresh, Site: c}] = true
+			st.addContents(c, inside)
 		}
 	}
 	if len(out) == 0 {
@@ -750,7 +777,23 @@ func (e *Effects) analyse(f *ssa.Function, first bool) {
 			if sum.RetIdx == nil {
 				sum.RetIdx = map[int]rootSet{}
 			}
+			if sum.RetTop == nil {
+				sum.RetTop = map[int]rootSet{}
+			}
 			for i, rv := range x.Results {
+				if sum.RetTop[i] == nil {
+					sum.RetTop[i] = rootSet{}
+				}
+				for r := range st.origins(rv) {
+					rr := r
+					if rr.Kind == rFresh {
+						rr.Site = nil
+					}
+					if !sum.RetTop[i][rr] {
+						sum.RetTop[i][rr] = true
+						e.changed = true
+					}
+				}
 				if sum.RetIdx[i] == nil {
 					sum.RetIdx[i] = rootSet{}
 				}
